@@ -1066,3 +1066,50 @@ Lemma s_demo2_removeall :
   has_ref (mkrn KBug (Track 1%N) name_fix) (ent_remove_all (remotes s_demo2) KBug (refs s_demo2)) = true /\
   snd (ent_remove_all_v1 (remotes s_demo2) KBug (refs s_demo2)) = EOther.
 Proof. repeat split; vm_compute; reflexivity. Qed.
+
+(* ---- a removal while the holder of a handle commits (cache/subcache.go Remove / RemoveAll, cache/cached.go Commit) ----
+   The entity's own lock makes `Commit` (test of the removed flag + write of the ref) and `setRemoved` atomic with
+   respect to each other (Conc.v: C18_mutex); the deletion of the refs happens outside that lock, under the sub-cache
+   lock only. Events of one removal and of any number of commits by holders of the loaded instance: *)
+Inductive rev := RCommit | RSetRemoved | RDelRef.
+Record rst := { r_ref : bool; r_removed : bool; r_acks : nat }.   (* the local ref exists; the flag; commits answered with success *)
+Definition rstep (s : rst) (e : rev) : rst :=
+  match e with
+  | RCommit => if r_removed s then s                               (* ErrEntityRemoved before anything is written *)
+               else {| r_ref := true; r_removed := false; r_acks := S (r_acks s) |}
+  | RSetRemoved => {| r_ref := r_ref s; r_removed := true; r_acks := r_acks s |}
+  | RDelRef => {| r_ref := false; r_removed := r_removed s; r_acks := r_acks s |}
+  end.
+Definition rrun (l : list rev) (s : rst) : rst := fold_left rstep l s.
+
+Definition has_del (l : list rev) : bool := existsb (fun e => match e with RDelRef => true | _ => false end) l.
+Lemma rrun_cons e l s : rrun (e :: l) s = rrun l (rstep s e).
+Proof. reflexivity. Qed.
+Lemma rrun_removed_sticky l s : r_removed s = true ->
+  r_removed (rrun l s) = true /\ r_ref (rrun l s) = (if has_del l then false else r_ref s) /\ r_acks (rrun l s) = r_acks s.
+Proof. revert s. induction l as [|e l IH]; intros s H; [cbn; auto|]. rewrite rrun_cons.
+  destruct e.
+  - unfold rstep. rewrite H. exact (IH s H).
+  - exact (IH (rstep s RSetRemoved) eq_refl).
+  - destruct (IH (rstep s RDelRef) H) as (A & B & C). split; [exact A|]. split; [|exact C].
+    rewrite B. unfold has_del. cbn [existsb orb]. fold (has_del l). destruct (has_del l); reflexivity. Qed.
+
+(* the order of the repaired code: the flag is set (under the entity lock) BEFORE the refs are deleted. Whatever commits
+   run before, in between and after, and however often: the ref is gone at the end, stays gone, and no commit is
+   acknowledged after the flag was set — the acknowledged ones all completed before the removal deleted the ref *)
+Lemma remove_vs_commits before between after s :
+  (forall e, In e (before ++ between ++ after) -> e = RCommit) ->
+  let l := before ++ RSetRemoved :: between ++ RDelRef :: after in
+  r_ref (rrun l s) = false /\ r_removed (rrun l s) = true /\ r_acks (rrun l s) = r_acks (rrun before s).
+Proof. intros Hc l. subst l. unfold rrun at 1 2 3. rewrite fold_left_app. cbn [fold_left].
+  fold (rrun before s). set (s1 := rrun before s).
+  change (fold_left rstep (between ++ RDelRef :: after) (rstep s1 RSetRemoved)) with (rrun (between ++ RDelRef :: after) (rstep s1 RSetRemoved)).
+  destruct (rrun_removed_sticky (between ++ RDelRef :: after) (rstep s1 RSetRemoved) eq_refl) as (A & B & C).
+  split; [|split; [exact A|rewrite C; reflexivity]].
+  rewrite B. unfold has_del. rewrite existsb_app. cbn [existsb]. rewrite orb_true_r. reflexivity. Qed.
+
+(* the other order (refs deleted first, flag afterwards) lets a commit that is in flight write the entity back *)
+Lemma remove_vs_commits_other_order_refuted :
+  exists between, (forall e, In e between -> e = RCommit) /\
+    r_ref (rrun (RDelRef :: between ++ [RSetRemoved]) {| r_ref := true; r_removed := false; r_acks := 0 |}) = true.
+Proof. exists [RCommit]. split; [intros e [<-|[]]; reflexivity|reflexivity]. Qed.
